@@ -76,14 +76,26 @@ def run(ctx):
     cases = list(pe.corpus("C18"))
     ncorpus = len(cases)
     cases += pe.generate18(ctx.seed, "fix", ncases, size, prefix="x") + pe.generate18(ctx.seed, "fallback", ncases, size, prefix="b")
+    # four handles: the deep_cond shape (conditionally formed nested cycles in which a transferred
+    # query is re-claimed and released while another handle is blocked on the re-claimer) and
+    # chains of nested heads (a lock is transferred twice, waiters two levels down the transfer
+    # tree); besides PCT depth 3 / random these are explored with PCT depth 50 — the defects
+    # found there need many priority changes (checks/notes/C19-circular-blocked-edges.txt)
+    hard, semantic = pe.generate_hard(ctx.seed, 24 if quick else 120, size, prefix="q")
+    cases += hard
+    plan = {"pct": cases, "random": cases, "pct50": hard}
+    iters_of = {"pct": iters, "random": iters, "pct50": 2000 if quick else 4000}
+    scheds = ["pct", "random", "pct50"]
     spec = pe.specification18(cases, cycle_driver)
-    notmono = [cid for cid, s in spec.items() if s["mono"] is False]
+    # (the value-conditioned deep_cond programs are monotone by construction — then-branch = else-branch plus
+    # further terms — but outside the syntactic class mono_table)
+    notmono = [cid for cid, s in spec.items() if s["mono"] is False and cid not in semantic]
     if notmono:
         raise common.CheckError(f"generated fixpoint program outside the class mono_table (C12_profile_programs_monotone): {notmono[:3]}")
     out_root = os.path.join(common.BUILD, "par-traces", f"C18-{ctx.seed}")
     shutil.rmtree(out_root, ignore_errors=True)
     os.makedirs(out_root)
-    res, tdirs = parcheck.explore18(ctx, cases, harness, scheds, iters, out_root, trace_cap=3 if quick else 4)
+    res, tdirs = parcheck.explore18(ctx, plan, harness, scheds, iters_of, out_root, trace_cap=3 if quick else 4)
 
     # ---- (a) + (b)
     findings, known, lin, circular = [], [], {}, []
@@ -99,8 +111,10 @@ def run(ctx):
         return any(r.get(tuple(key)) == got for r in lin[cid])
 
     for sched, (out, _hung) in res.items():
-        for c in cases:
+        for c in plan[sched]:
             cid = c.split()[1]
+            if cid not in out and any(o["fails"] for o in out.values()):
+                continue            # not run: the harness process of its shard died in an earlier case (reported there)
             fs, kn = pe.check_case18(cid, spec[cid], out, shuttle=True)
             known += [(cid, sched, k) for k in kn]
             for f in fs:
@@ -156,7 +170,7 @@ def run(ctx):
                 distinct_states=0, probe_reads_that_executed=0)
     contradicting = []
     for sched, (out, _hung) in res.items():
-        reqs, owners = pe.cert_requests(cases, out)
+        reqs, owners = pe.cert_requests(plan[sched], out)
         cr = pe.run_cert_driver(reqs, cert_driver)
         cert["distinct_states"] += len(reqs)
         for rid, r in cr.items():
@@ -188,7 +202,7 @@ def run(ctx):
         if f["kind"] == "failure":
             sched_file = parcheck.keep_file(f["detail"].get("sched"), f"C18-schedule-{ctx.seed}-{ctx.replay_n + 1}.txt")
         ctx.violation(dict(kind=WHAT, case=c, scheduler=sched, harness_seed=ctx.seed, iteration=f["iter"],
-                           iters_to_run=max(iters, f["iter"] + 1), finding=f, shuttle_schedule_file=sched_file,
+                           iters_to_run=max(iters_of.get(sched, iters), f["iter"] + 1), finding=f, shuttle_schedule_file=sched_file,
                            engine="par-cycle", os_threads=(sched == "os"),
                            how_to_replay="./vp replay <this file>  (re-runs the same case with the same scheduler and seed up to "
                                          "the failing iteration; a persisted shuttle schedule is replayed too)"))
@@ -271,8 +285,10 @@ def run(ctx):
                 "protocol-trace hash) pairs among the schedules in which try_claim/block answered Cycle to a thread other "
                 "than the owner or a lock was transferred to a query owned by another thread",
         "cases": len(cases), "corpus_cases": ncorpus,
-        "profiles": {"fix (kleene)": ncases, "fallback (spec_fallback)": ncases},
-        "schedulers": scheds, "iterations_per_case_and_scheduler": iters,
+        "profiles": {"fix (kleene)": ncases, "fallback (spec_fallback)": ncases,
+                     "four handles: deep_cond shape / chains of nested heads (kleene)": len(hard)},
+        "four_handle_cases_monotone_by_construction_outside_mono_table": len(semantic),
+        "schedulers": scheds, "iterations_per_case_and_scheduler": iters_of,
         "requests_in_first_revision_per_schedule": first_rev, "requests_in_later_revisions_per_schedule": later_rev,
         "totals": tot, "per_scheduler": st,
         "findings": len(findings),
